@@ -198,6 +198,18 @@ def rule_R2(ctx):
                         if o:
                             if o[0] == "Lt":
                                 w = "frame shorter than the header"
+                                # the bytes demanded beyond the start of the IP header: never more than the identity needs
+                                # (IPv6: 40 header bytes + 4 port bytes = 44 is the largest constant requirement there is)
+                                bt = T.strip(o[2])
+                                k_ = T.fold_int(bt)
+                                if k_ is None and bt[0] == "call" and bt[1].endswith(("saturating_add", "wrapping_add", "checked_add")) and len(bt[2]) == 2:
+                                    k_ = T.fold_int(bt[2][1]) if T.fold_int(bt[2][1]) is not None else T.fold_int(bt[2][0])
+                                if k_ is None and bt[0] == "binop" and bt[1].startswith("Add"):
+                                    k_ = T.fold_int(bt[3]) if T.fold_int(bt[3]) is not None else T.fold_int(bt[2])
+                                if k_ is not None and k_ > 14 + 44:
+                                    loose = "len < %d" % k_
+                                elif k_ is not None and k_ > 44 and not (T.fold_int(bt) is not None):
+                                    loose = "len < start + %d" % k_
                             elif o[0] == "Le":
                                 loose = "len <= %s" % T.pp(T.strip(o[2]))[:30]
                         if c[0] == "int" and isinstance(c[2], tuple):
